@@ -439,7 +439,11 @@ def gl7(prog):
         # the lookups, wherever they are written: in the function itself or in closures handed to Option combinators
         keys = []
         outs = canon.option_outcomes(prog, te, te.ret)
-        roots = [canon.resolve_hashers(te, o) for o in (outs or [])]
+        # private helpers of the builder (`lookup(h)`, `table_key(h)`) are looked through
+        roots = [canon.inline_local(prog, canon.resolve_hashers(te, o),
+                                    lambda h: h.impl_self == self_adt and "{closure" not in h.npath and
+                                    h.name not in ("check_cached_hash_and_neg", "get_or_insert", "get_by_hash", "get_shared_sdd_ptr"))
+                 for o in (outs or [])]
         for r in roots:
             for x in mir.subterms(r):
                 if x[0] == "call" and x[1].name in ("get_by_hash", "get_shared_sdd_ptr") and x[2] and \
